@@ -7,7 +7,9 @@ import re
 import time
 
 VERIF = "/verif"
-REPO = "/repo"
+# VERIF_REPO lets the seeded-change tooling point a run at a scratch checkout;
+# registered checks always use /repo itself
+REPO = os.environ.get("VERIF_REPO") or "/repo"
 EXIT_OK = 0
 EXIT_VIOLATION = 1
 EXIT_INCONCLUSIVE = 3
@@ -61,7 +63,8 @@ class Report(object):
         self._known = load_known_findings()
         import shutil
 
-        shutil.rmtree(os.path.join(VERIF, "replays", prop), ignore_errors=True)
+        self.replay_dir = os.path.join(VERIF, "replays", prop + (os.environ.get("VERIF_NO_EVIDENCE") or ""))
+        shutil.rmtree(self.replay_dir, ignore_errors=True)
 
     # ------------------------------------------------------------------
     def known_entry(self, finding_id):
@@ -81,7 +84,7 @@ class Report(object):
         self.violations.append((text, replay))
 
     def write_replay(self, name, payload):
-        d = os.path.join(VERIF, "replays", self.prop)
+        d = self.replay_dir
         os.makedirs(d, exist_ok=True)
         safe = re.sub(r"[^A-Za-z0-9_.-]", "_", name)[:120]
         path = os.path.join(d, safe + ".json")
@@ -136,7 +139,7 @@ class Report(object):
         path = os.path.join(VERIF, "evidence", self.prop + ".json")
         if os.environ.get("VERIF_NO_EVIDENCE"):
             # runs against seeded changes must not overwrite committed evidence
-            path = os.path.join(VERIF, "build", self.prop + ".seedrun-evidence.json")
+            path = os.path.join(VERIF, "build", self.prop + os.environ["VERIF_NO_EVIDENCE"] + ".seedrun-evidence.json")
             os.makedirs(os.path.dirname(path), exist_ok=True)
         with open(path + ".tmp", "w") as fp:
             json.dump(evidence, fp, indent=1, default=repr)
